@@ -27,6 +27,7 @@ def run(ctx, crate):
     rule_limiter_state_private(ctx, crate)
     rule_limiter_admission(ctx, crate)
     rule_limiter_constants(ctx, crate)
+    rule_force_is_constant(ctx, crate)
     # "skipped draws lose nothing": a member's rendering is refreshed before the MultiProgress limiter decides
     from .c02 import rule_multi_arm_unconditional
     rule_multi_arm_unconditional(ctx, crate)
@@ -255,3 +256,35 @@ def rule_limiter_constants(ctx, crate, rule="R-LIMITER-CONSTANTS"):
             cs = x.calls(r"draw_target::ProgressDrawTarget::term")
             ctx.check(bool(cs) and all(is_const(c.args[1], 20) for c in cs), rule, "default-rate:%s" % K.meth(fn), fn, K.fn_loc(x), "default refresh rate is 20 Hz",
                       "the default refresh rate is not 20 Hz", cfg)
+
+
+def rule_force_is_constant(ctx, crate, rule="R-FORCE-IS-CONSTANT"):
+    """"Redraw requests … are painted under a token-bucket law": whether a redraw may bypass the limiter is a static
+    property of the call site (finish / println / suspend / explicit force_draw pass the constant true), never a function of
+    the bar's state. Every call of BarState::draw / MultiState::draw passes a boolean constant, or — in the two forwarding
+    functions — its own force parameter; the shared update path (every inc / set_position / tick / set_message / set_length
+    ends there) passes the constant false."""
+    cfg = crate.config
+    n = 0
+    for b in K.lib_bodies(crate):
+        for c in b.calls(r"state::BarState::draw", r"multi::MultiState::draw"):
+            n += 1
+            a = c.args[1]
+            if a.get("k") == "const":
+                v = a.get("v")
+                if b.name == "state::BarState::update_estimate_and_draw":
+                    ctx.check(v is False, rule, "update-path-unforced", b.name, c.loc(), "the shared update path never forces its redraw",
+                              "the shared update path forces its redraw: ordinary updates bypass the refresh-rate limiter", cfg)
+                else:
+                    ctx.ok(rule, "const:%s" % K.meth(K.owner_fn(crate, b)), b.name, c.loc(), "force flag is the constant %s" % v, cfg)
+                continue
+            sl = b.slice_args(c, [1])
+            own = [p for p in sl.params() if b.locals[p]["ty"] == "bool"]
+            fields = [x for x in sl.atoms if x[0] == "field" and x[2] == "force_draw"]
+            state_dep = sorted({"%s.%s" % (x[1].rsplit("::", 1)[-1], x[2]) for x in sl.atoms if x[0] == "field" and x[2] != "force_draw"} |
+                               {x.path for x in sl.calls if not x.matches(r"state::ProgressState::is_finished", r"std::ops::Deref.*")})
+            ok = (own or fields) and not state_dep
+            ctx.check(bool(ok), rule, "forwarded:%s" % K.meth(K.owner_fn(crate, b)), b.name, c.loc(),
+                      "a non-constant force flag is the caller's own flag, forwarded",
+                      "the force flag passed to %s is computed from the bar's state (%s): redraws bypass the limiter depending on position/length/…" % (K.meth(c.path), state_dep[:3]), cfg)
+    ctx.floor(rule, n, 8, cfg, "calls of BarState::draw / MultiState::draw")
